@@ -270,6 +270,102 @@ struct FDrv {
         });
     }
 
+    //--------------------------------------------------------------------
+    // Exhaustive sweep of all 2^32 binary32 patterns (thorough tier): AVEL against
+    // the reference the property names (<cmath> under the current rounding mode).
+    // Every input on which they differ (bit-wise, NaN = NaN) becomes a fact for TLC;
+    // the comparison itself decides nothing.
+    //--------------------------------------------------------------------
+    static bool same_float(S a, S b) {
+        if (a != a && b != b) return true;
+        return std::memcmp(&a, &b, sizeof(S)) == 0;
+    }
+    template<class F, class R>
+    void fsweep_un(const char* op, bool moded, F f, R ref) {
+        set_label(tn, op);
+        unsigned long diffs = 0;
+        const std::uint64_t BLOCK = 1ull << 20;
+        static std::vector<S> out(BLOCK);
+        for (std::uint64_t base = 0; base < (1ull << 32); base += BLOCK) {
+            int sg = guarded([&] {
+                for (std::uint64_t x = base; x < base + BLOCK; x += N) {
+                    A a;
+                    for (unsigned j = 0; j < N; ++j) a[j] = from_bits<S>(typename fbits<S>::U(x + j));
+                    opaque(a);
+                    auto rv = avel::to_array(f(V(a)));
+                    std::memcpy(&out[x - base], &rv, sizeof(rv));
+                }
+            });
+            for (std::uint64_t x = base; x < base + BLOCK; ++x) {
+                S a = from_bits<S>(typename fbits<S>::U(x));
+                volatile S av = a;
+                S rr = S(ref(S(av)));
+                    // a zero computed from a non-zero input may carry either sign (the specification's reading):
+                    // such differences from libm are not forwarded - they would all be accepted
+                if (!sg && out[x - base] == S(0) && rr == S(0) && a != S(0)) continue;
+                if (sg || !same_float(out[x - base], rr)) {
+                    if (++diffs <= 200000) {
+                        Fact fc(op, 'f');
+                        if (moded) fc.mode(g_rm);
+                        emit(fc.val("a", a).val("r", sg ? S(0) : out[x - base]).signal(sg), tn, int(x % N), "sweep");
+                    }
+                }
+            }
+        }
+        std::fprintf(stderr, "vh-sweep: %s %s %s inputs=4294967296 disagreements=%lu\n", tn, op, g_rm, diffs);
+    }
+    template<class F, class R>
+    void fsweep_pred(const char* op, F f, R ref) {
+        set_label(tn, op);
+        unsigned long diffs = 0;
+        const std::uint64_t BLOCK = 1ull << 20;
+        static std::vector<unsigned char> out(BLOCK);
+        for (std::uint64_t base = 0; base < (1ull << 32); base += BLOCK) {
+            int sg = guarded([&] {
+                for (std::uint64_t x = base; x < base + BLOCK; x += N) {
+                    A a;
+                    for (unsigned j = 0; j < N; ++j) a[j] = from_bits<S>(typename fbits<S>::U(x + j));
+                    opaque(a);
+                    int r[N];
+                    mask_lanes(f(V(a)), r);
+                    for (unsigned j = 0; j < N; ++j) out[x - base + j] = (unsigned char) r[j];
+                }
+            });
+            for (std::uint64_t x = base; x < base + BLOCK; ++x) {
+                S a = from_bits<S>(typename fbits<S>::U(x));
+                if (sg || (out[x - base] != 0) != bool(ref(a))) {
+                    if (++diffs <= 200000)
+                        emit(Fact(op, 'f').val("a", a).num("r", sg ? 0 : out[x - base]).signal(sg), tn, int(x % N), "sweep");
+                }
+            }
+        }
+        std::fprintf(stderr, "vh-sweep: %s %s inputs=4294967296 disagreements=%lu\n", tn, op, diffs);
+    }
+    template<class VV = V>
+    typename std::enable_if<sizeof(typename VV::scalar) == 4>::type fsweep(bool first_mode) {
+        fsweep_un("ceil", true, [](V a) { return avel::ceil(a); }, [](S x) { return std::ceil(x); });
+        fsweep_un("floor", true, [](V a) { return avel::floor(a); }, [](S x) { return std::floor(x); });
+        fsweep_un("trunc", true, [](V a) { return avel::trunc(a); }, [](S x) { return std::trunc(x); });
+        fsweep_un("round", true, [](V a) { return avel::round(a); }, [](S x) { return std::round(x); });
+        fsweep_un("nearbyint", true, [](V a) { return avel::nearbyint(a); }, [](S x) { return std::nearbyint(x); });
+        fsweep_un("rint", true, [](V a) { return avel::rint(a); }, [](S x) { return std::rint(x); });
+        fsweep_un("sqrt", true, [](V a) { return avel::sqrt(a); }, [](S x) { return std::sqrt(x); });
+        if (!first_mode) return;      // the remaining functions do not depend on the rounding mode
+        fsweep_un("logb", false, [](V a) { return avel::logb(a); }, [](S x) { return std::logb(x); });
+        fsweep_un("frac", false, [](V a) { return avel::frac(a); }, [](S x) { return x - std::trunc(x); });
+        fsweep_un("abs", false, [](V a) { return avel::abs(a); }, [](S x) { return std::fabs(x); });
+        fsweep_un("neg_abs", false, [](V a) { return avel::neg_abs(a); }, [](S x) { return -std::fabs(x); });
+        fsweep_un("neg", false, [](V a) { return -a; }, [](S x) { return -x; });
+        fsweep_pred("isnan", [](V a) { return avel::isnan(a); }, [](S x) { return std::isnan(x); });
+        fsweep_pred("isinf", [](V a) { return avel::isinf(a); }, [](S x) { return std::isinf(x); });
+        fsweep_pred("isfinite", [](V a) { return avel::isfinite(a); }, [](S x) { return std::isfinite(x); });
+        fsweep_pred("isnormal", [](V a) { return avel::isnormal(a); }, [](S x) { return std::isnormal(x); });
+        fsweep_pred("signbit", [](V a) { return avel::signbit(a); }, [](S x) { return std::signbit(x); });
+        fsweep_pred("nz", [](V a) { return M(a); }, [](S x) { return x != S(0); });
+    }
+    template<class VV = V>
+    typename std::enable_if<sizeof(typename VV::scalar) != 4>::type fsweep(bool) {}
+
     // byteswap is missing for some float vectors (a C19 matter): call it where it exists
     template<class VV, class = void>
     struct has_byteswap : std::false_type {};
@@ -518,6 +614,12 @@ static void dispatch(D& d, const std::string& family) {
     else if (family == "fselect") d.fselect();
 }
 
+#if defined(AVEL_SSE2)
+#define VH_HAS_SIMD 1
+#else
+#define VH_HAS_SIMD 0
+#endif
+
 int main(int argc, char** argv) {
     if (argc < 5) return 2;
     std::string family = argv[1];
@@ -525,14 +627,17 @@ int main(int argc, char** argv) {
     std::uint64_t seed = std::strtoull(argv[3], nullptr, 10);
     if (!open_sink(argv[4])) return 2;
     install_handlers();
-    const bool moded = family == "farith" || family == "fround" || family == "fmanip";
+    const bool moded = family == "farith" || family == "fround" || family == "fmanip" || family == "fsweep";
     for (unsigned rc = 0; rc < (moded ? 4u : 1u); ++rc) {
+        if (family == "fsweep" && rc >= 2) break;     // the exhaustive sweep runs under round-to-nearest and round-down
         set_rounding(rc);
         g_rm = rc_name(rc);
 #define RUN_F(X)                                   \
+    if (!(family == "fsweep" && VH_HAS_SIMD && std::strcmp(#X, "1x32f") == 0)) \
     {                                              \
         FDrv<avel::vec##X> d(#X, seed);            \
         if (family == "fcmp") d.fcmp();            \
+        else if (family == "fsweep") d.fsweep(rc == 0); \
         else if (family == "fmask") d.fmask();     \
         else dispatch(d, family);                  \
     }
